@@ -343,16 +343,28 @@ fn argument_separator(input: &[u8]) -> ParseResult<()> {
     Ok((input, ()))
 }
 
+/// Tries the next alternative, unless the previous one failed because the
+/// input is incomplete (e.g. it ends inside a string or a block).
+fn or_next<'a, T, F>(error: ParseError, parser: F, input: &'a [u8]) -> ParseResult<'a, T>
+where
+    F: Fn(&'a [u8]) -> ParseResult<'a, T>,
+{
+    match error {
+        ParseError::Incomplete => Err(error),
+        _ => parser(input),
+    }
+}
+
 /// Parses an argument value.
 fn argument(input: &[u8]) -> ParseResult<Value<'_>> {
     characters(input)
-        .or_else(|_| decimal_numeric_program_data(input))
-        .or_else(|_| hexadecimal_numeric_program_data(input))
-        .or_else(|_| binary_numeric_program_data(input))
-        .or_else(|_| octal_numeric_program_data(input))
-        .or_else(|_| single_quoted_string_program_data(input))
-        .or_else(|_| double_quoted_string_program_data(input))
-        .or_else(|_| arbitrary_program_data(input))
+        .or_else(|e| or_next(e, decimal_numeric_program_data, input))
+        .or_else(|e| or_next(e, hexadecimal_numeric_program_data, input))
+        .or_else(|e| or_next(e, binary_numeric_program_data, input))
+        .or_else(|e| or_next(e, octal_numeric_program_data, input))
+        .or_else(|e| or_next(e, single_quoted_string_program_data, input))
+        .or_else(|e| or_next(e, double_quoted_string_program_data, input))
+        .or_else(|e| or_next(e, arbitrary_program_data, input))
 }
 
 /// Parses multiple arguments separated by commas.
